@@ -554,8 +554,8 @@ bool Message::checkLevel(const string& level, const string& checkLevels) {
   if (checkLevels.empty()) {
     return false;
   }
-  if (checkLevels == "*") {
-    return true;
+  if (checkLevels == "*" || (level != "*" && checkLevel("*", checkLevels))) {
+    return true;  // "*" grants everything, also as one of several levels in the list
   }
   size_t len = level.length();
   size_t maxLen = checkLevels.length();
